@@ -177,7 +177,7 @@ def m_vec_push(E, st, fr, bi, callee, args, dest_ty):
 def m_from_elem(E, st, fr, bi, callee, args, dest_ty):
     # vec![e; n]
     n = st.const(args[1]) if type(args[1]) is I else None
-    if n is not None and 0 < n <= 64:
+    if n is not None and 0 < n <= max(64, E.ctx.hooks.get("keep_heads_max", 64)):
         return ret1(Sq(args[0], args[1], {i: args[0] for i in range(n)}, None), st)
     return ret1(Sq(args[0], args[1], None, None), st)
 
@@ -1178,9 +1178,10 @@ def m_collect(E, st, fr, bi, callee, args, dest_ty):
     # exact small case: run the iterator concretely when its length is a small constant
     c = st.const(n)
     if c is not None and c <= E.ctx.hooks.get('exact_collect_max', 64):
+        keep = max(64, E.ctx.hooks.get("keep_heads_max", 64))     # distinguished elements are kept up to this length
         items = []
         cur = it
-        s = st.copy() if c > 64 else st
+        s = st.copy() if c > keep else st
         okk = True
         elem = None
         with pinned(E.ctx, n, it):
@@ -1193,14 +1194,14 @@ def m_collect(E, st, fr, bi, callee, args, dest_ty):
                 item, cur, s = outs[0]
                 if type(item) is Pt:
                     item = deref(E, s, item) if False else item
-                if c <= 64:
+                if c <= keep:
                     items.append(item)
                 with pinned(E.ctx, item, elem):
                     elem = item if elem is None else E.join_vals(s, elem, item)
         if okk:
             if elem is None:
                 return ret1(Sq(BOT, n, None, None), s)
-            if c <= 64:
+            if c <= keep:
                 return ret1(Sq(elem, n, {i: x for i, x in enumerate(items)}, None), s)
             return ret1(Sq(elem, n, None, None), s)
     with pinned(E.ctx, n, it):
